@@ -112,7 +112,13 @@ def run_state(args):
     if st["files"] != "no_key":
         put(base + ".pk.pem", leaf["key_pem"])
     if st["files"] != "no_cert":
-        put(base + ".crt.pem", leaf["cert_pem"])
+        # the file is the chain the CA served: every other point also holds the issuer's certificate, which ends EARLIER than the
+        # end-entity certificate (an intermediate in its last hour, or one that ended an hour ago): "notAfter" is the certificate's own
+        chain = leaf["cert_pem"]
+        if idx % 2 == 0:
+            short = vc.must("make_ca", cn="sched CA, ending", not_after_s=3600 if idx % 4 == 0 else -3600, not_before_s=-7200)
+            chain += short["cert_pem"]
+        put(base + ".crt.pem", chain)
     cfg = {"global": {"accounts_directory": os.path.join(d, "accounts"), "certificates_directory": os.path.join(d, "certs")},
            "endpoint": [{"name": "E", "url": "http://127.0.0.1:9/dir", "tos_agreed": True}],
            "account": [{"name": "a", "contacts": [{"mailto": "a@example.org"}]}],
